@@ -1290,7 +1290,15 @@ class Store:
                 process_updates.append((
                     process_path, process.value))
 
-        self._delete_path(source_path)
+        source_outer = self.get_path(source_path[:-1])
+        if source_node.outer is source_outer:
+            # the target already held this key and was updated instead
+            # of receiving the node: the source subtree goes away
+            self._delete_path(source_path)
+        elif source_outer.inner.get(source_path[-1]) is source_node:
+            # the node now lives under the target: detach it from its
+            # old parent without ending its (parallel) processes
+            del source_outer.inner[source_path[-1]]
 
         here = self.path_for()
         source_absolute = tuple(here + source_path)
